@@ -174,7 +174,8 @@ def probcover_cases(ctx, count):
 def loops_correspondence(ctx):
     count = 150 if ctx.is_quick else 2000
     for name, gen, fn in (("CoreSet", coreset_cases, "check_coreset"), ("ProbCover", probcover_cases, "check_probcover"),
-                          ("Clue/DiscriminativeAL", oracle_loop_cases, "check_oracle_loop"), ("GreedySamplingX", gsx_cases, "check_gsx")):
+                          ("Clue/DiscriminativeAL", oracle_loop_cases, "check_oracle_loop"), ("GreedySamplingX", gsx_cases, "check_gsx"),
+                          ("TypiClust", typiclust_cases, "check_typiclust")):
         terms, meta = gen(ctx, count)
         bad, err = ctx.coq_eval_cases("loop_" + fn, IMPORTS, fn, terms, chunk=100)
         if err:
@@ -354,4 +355,90 @@ def gsx_cases(ctx, count):
         ctx.hist[f"gsx:{cmode}:{'cold' if not lab else 'warm'}"] += 1
         if k >= 2:
             ctx.nontriv(("gsx", x.tobytes(), y.tobytes(), cmode, repr(meta[-1]["candidates"]), bs, seed))
+    return terms, meta
+
+
+# ---------------------------------------------------------------------------------------------
+# TypiClust AS WRITTEN (recorded findings: duplicates, UnboundLocalError): exact correspondence, so that any
+# change of its selection logic is seen although its property violations are recorded findings
+def typiclust_cases(ctx, count):
+    from sklearn.base import BaseEstimator
+    from skactiveml.pool import TypiClust
+    from skactiveml.pool._typi_clust import _typicality
+    from .core import fkey
+
+    class ScriptedLabels(BaseEstimator):
+        def __init__(self, n_clusters=2, table=None):
+            self.n_clusters, self.table = n_clusters, table
+
+        def fit_predict(self, X, y=None):
+            return np.asarray(self.table, dtype=int)[:len(X)] % self.n_clusters
+
+    rng = ctx.rng("typiclust")
+    terms, meta = [], []
+    for h in range(count):
+        n = int(rng.integers(2, 9))
+        x = rng.integers(0, 6, size=n)
+        X = x.astype(float).reshape(-1, 1)
+        y = np.where(rng.random(n) < rng.choice([0.0, 0.3, 0.6]), 0.0, np.nan)
+        if not np.isnan(y).any():
+            y[int(rng.integers(0, n))] = np.nan
+        nlab = int((~np.isnan(y)).sum())
+        cmode = str(rng.choice(["none", "idx"]))
+        if cmode == "none":
+            cand, mapping = None, [int(i) for i in np.flatnonzero(np.isnan(y))]
+        else:
+            cand = rng.integers(0, n, size=int(rng.integers(1, n + 2)))
+            mapping = sorted({int(i) for i in cand})
+        bs = int(rng.integers(1, len(mapping) + 2))
+        k = min(bs, len(mapping))
+        ncl = nlab + k
+        table = rng.integers(0, max(ncl, 1) if rng.random() < 0.5 else 2, size=n)     # few clusters in use: all of them get covered inside a batch
+        labels = (table % ncl).astype(int)
+        seed = int(rng.integers(0, 1000))
+        knn = int(rng.integers(1, 4))
+        mk = lambda: TypiClust(cluster_algo=ScriptedLabels, cluster_algo_dict={"table": table.tolist()}, k=knn, random_state=seed)
+        with warnings.catch_warnings():
+            warnings.simplefilter("ignore")
+            try:
+                idx, ut = mk().query(X, y, candidates=cand, batch_size=bs, return_utilities=True)
+                obs = (np.asarray(idx).ravel().tolist(), np.asarray(ut, dtype=float))
+            except UnboundLocalError:
+                obs = None
+            except Exception as e:
+                ctx.violation("TypiClust", "exception:" + type(e).__name__, repr(e)[:300],
+                              {"x": x.tolist(), "y": [None if v != v else v for v in y], "labels": labels.tolist(), "batch_size": bs, "seed": seed},
+                              what=f"TypiClust.query raised {type(e).__name__} with a scripted cluster algorithm", tags=("scripted_clusters",))
+                continue
+            twin = mk()
+            twin._validate_data(X, y, cand, bs, True)
+            T = np.full((ncl, n), -np.inf)
+            for c in range(ncl):
+                members = np.flatnonzero(labels == c)
+                if len(members):
+                    T[c] = _typicality(X, members, knn)
+        sizes = [int((labels == c).sum()) for c in range(ncl)]
+        for c in {int(labels[i]) for i in np.flatnonzero(~np.isnan(y))}:
+            sizes[c] = 0
+        stream = twin.random_state_.random(k * (ncl + len(mapping)) + 1)
+        allv = [fkey(v) for v in T.ravel()] + [fkey(1.0), fkey(-np.inf)] + ([fkey(v) for v in obs[1].ravel()] if obs else [])
+        keys = rank_keys(allv)
+        Tk = [keys[c * n:(c + 1) * n] for c in range(ncl)]
+        one_key, neg_key = keys[ncl * n], keys[ncl * n + 1]
+        if obs:
+            uk = keys[ncl * n + 2:]
+            steps = listlit([f"({natlit(int(p))}, {listlit(['None' if v is None else f'(Some {zlit(v)})' for v in uk[r * n:(r + 1) * n]])})" for r, p in enumerate(obs[0])])
+            obs_t = f"(Some {steps})"
+        else:
+            obs_t = "None"
+        Tl = listlit([zlist([0 if v is None else v for v in r]) for r in Tk])
+        terms.append(f"({natlit(n)}, {natlist(mapping)}, {natlist(labels.tolist())}, {Tl}, {zlit(one_key)}, {zlit(neg_key)}, {natlit(k)}, "
+                     f"{zlist(sizes)}, {zlist([noise_num(v) for v in stream])}, {obs_t})")
+        meta.append({"strategy": "TypiClust", "x": x.tolist(), "y": [None if v != v else v for v in y], "cluster_labels": labels.tolist(),
+                     "candidates": None if cand is None else np.asarray(cand).tolist(), "batch_size": bs, "k": knn, "seed": seed,
+                     "returned_indices": obs[0] if obs else "UnboundLocalError"})
+        ctx.count("typiclust_loop_correspondence")
+        ctx.hist["typiclust:" + ("raised" if obs is None else ("duplicates" if len(set(obs[0])) < len(obs[0]) else "valid"))] += 1
+        if k >= 2:
+            ctx.nontriv(("typiclust", x.tobytes(), y.tobytes(), labels.tobytes(), repr(meta[-1]["candidates"]), bs, seed))
     return terms, meta
